@@ -75,7 +75,7 @@ def lovelaceDiffOrFail : Value.Value → Value.Value → Value.R Int
   | .multi f fma, .multi s sma => if f ≥ s ∧ Value.multiAssetsAreEqual fma sma = true then subU64 f s else .err
 
 inductive CollRes where
-  | ok | negativeValue | nonLovelace | minLovelace | annotation | panic
+  | ok | negativeValue | nonLovelace | minLovelace | annotation | missing | tooMany | panic
   deriving DecidableEq, Repr
 
 def coinV : Value.Value → Int
@@ -137,5 +137,14 @@ def collateralBalance (conway legacyReturn : Bool) (ins : List Value.Value) (ret
         match total with
         | some t => if paid ≠ (t : Int) then .annotation else .ok
         | none => .ok
+
+/-- `check_collaterals` of Babbage / Conway as far as it bears on totality: `check_collaterals_number` (the list is not empty,
+    not longer than `max_collateral_inputs`) runs before `check_collaterals_assets`, which is what makes Conway's
+    `collaterals.first().unwrap()` safe (`check_collaterals_address` in between has no partial operation) -/
+def collateralRule (conway legacyReturn : Bool) (maxInputs : Nat) (ins : List Value.Value) (ret : Option Value.Value)
+    (fee percentage : Nat) (total : Option Nat) : CollRes :=
+  if ins.isEmpty then .missing
+  else if ins.length > maxInputs then .tooMany
+  else collateralBalance conway legacyReturn ins ret fee percentage total
 
 end PallasVerif.PhaseOneArith
